@@ -482,5 +482,5 @@ def r0_substitution(ctx):
 MANIFEST_ENTRY = {
     "technique": "static analysis: abstract evaluation (rules/fkeval.py on rules/absint.py) of ParsedValue::populate with its real callees over every kind of value x argument set (oracle: the pure substitution of the statement), of the argument-object parser, of the resolution step resolve_foreign_key_inner over target kinds x inherits tables (chains, cycles, self reference, absent links; oracle: first locale of the chain that defines the target), and of the traversal resolve_foreign_key (every reference cell once, busy cell = cycle); abstract evaluation of the driver and of the naming helpers; MIR dominance ordering of the passes, who-may-construct unresolved references; the parse-time range matcher agrees with the generated patterns (shared with C04.R1); abstract evaluation of the key lookup (LocalesOrNamespaces / Locale::get_value_at on groups nested three deep, two locales, namespaces), of the extent of the argument object in parse_foreign_key_args, of get_value_at_path against is_possible_plural (merged plural key), and the Literal::join / Display clauses of C01.R3 with a float model",
     "level_text": "Finite abstract evaluation + structural: substitution, argument parsing, the resolution step and the traversal are interpreted on one value per constructor shape (and per position of a variable inside it) and compared with the statement; references are shown recorded at creation and all visited, and the pass order is decided by dominance. No project is loaded.",
-    "level_note": "Trusted: RefCell borrow semantics for cycle detection (modelled). D11 repaired upstream (44c852c). Not decided: concrete rendered text. Known and undecided (DESIGN 11.17, hunts/C06): a component / a formatter around a reference is lost (`<b>$t(x)</b>`, `$t(price, {\"n\": 1000000})` drops `number`).",
+    "level_note": "Trusted: RefCell borrow semantics for cycle detection (modelled). D11 repaired upstream (44c852c). Not decided: concrete rendered text. Known and undecided (DESIGN 11.17, hunts/C06): a formatter is lost when its variable is replaced by an argument (`$t(price, {\"n\": 1000000})` drops `number`).",
 }
